@@ -61,7 +61,8 @@ EXPECTED_PROBES = ["push-buffer_output-overflow", "push-buffer_input-overflow", 
                    "thousand-blocks-between-two-requests", "none-values-in-the-flow",
                    "element-with-both-interfaces", "run-element-with-reset-method-unasked",
                    "run-element-with-reset-method-asked", "deep-copied-adapter",
-                   "element-with-request-and-compute", "element-with-renamed-methods"]
+                   "element-with-request-and-compute", "element-with-renamed-methods",
+                   "second-live-adapter"]
 
 BUDGET = 200000
 
@@ -291,6 +292,10 @@ def gen_scenario(tape):
     sc.renamed = sc.kind == "fr" and not sc.both and not sc.fr_decoy and tape.chance(1, 5, "renamed-methods")
     # the adapter that is driven is a deep copy
     sc.deepcopy = sc.kind in ("fc", "fr") and tape.chance(1, 5, "deep-copied-adapter")
+    # a second adapter of the same kind is alive at the same time and is filled in turn with
+    # values of its own (two FillRequest branches of a Split driven by fill, nested adapters)
+    sc.twin = (sc.driver == "push" and sc.wrapper == "bare" and not sc.long and sc.stop_at is None
+               and tape.chance(1, 4, "second-live-adapter"))
     # bare None values in the flow
     sc.nones = []
     if not sc.long and tape.chance(1, 4, "none-values"):
@@ -649,10 +654,27 @@ def drive_push(sc, res, values, cfg):
             return False
         return True
 
+    twin = twin_probe = None
+    twin_filled = []
+    if getattr(sc, "twin", False):
+        twin_probe = make_probe(sc, log)
+        twin_probe.name = "twin"
+        twin = _make_adapter(sc, twin_probe)
+        res.probe("second-live-adapter")
+        res.say("a second adapter of the same kind is filled in turn with values of its own "
+                "(1000, 1001, ...) and asked only at the end")
     pos = 0
     ri = 0
     prev_req = None
     for s in values:
+        if twin is not None:
+            t = 1000 + len(twin_filled)
+            _, hang = guarded(res, "fill", lambda t=t: twin.fill(mk(t)))
+            if hang:
+                res.viol("C16:FillRequest:push:%s:second-adapter:fill:hang" % cfg,
+                         "fill(#%d) of the second adapter did not return" % t)
+                return
+            twin_filled.append(t)
         while ri < len(reqs) and reqs[ri] == pos:
             if prev_req == pos:
                 res.fault("double-request")
@@ -691,6 +713,27 @@ def drive_push(sc, res, values, cfg):
         ri += 1
     if not do_request(pos, final=True):
         return
+    if twin is not None:
+        # the other adapter accounts for its own values, all of them and nothing else
+        r, hang = guarded(res, "request", lambda: list(twin.request()))
+        if hang:
+            res.viol("C16:FillRequest:push:%s:second-adapter:request:hang" % cfg,
+                     "request() of the second adapter did not return")
+            return
+        log.ev("result", "twin-request", summarize(r))
+        theld = occupancy(twin, n)[0]
+        tf = twin_probe.all_fills
+        if tf != twin_filled[:len(tf)] or len(tf) + theld != len(twin_filled):
+            res.viol("C16:FillRequest:push:%s:two-adapters:values-not-accounted-for-exactly-once" % cfg,
+                     "a second adapter was filled with %r; its element saw %r and it holds %d "
+                     "buffered values" % (twin_filled, tf, theld))
+            return
+        texp = [("twin",) + tuple(x[1:]) for b in model_per_block(sc, twin_filled) for x in b]
+        if not sc.remainder and r != texp:
+            res.viol("C16:FillRequest:push:%s:two-adapters:results-differ-from-run" % cfg,
+                     "a second adapter filled with %r and asked once gave %r; run over its flow "
+                     "gives %r" % (twin_filled, r, texp))
+            return
     if len(values) >= n and (any(p % n for p in reqs) or any(
             b - a > n for a, b in zip([0] + reqs, reqs + [len(values)]))):
         res.nontrivial = True
